@@ -72,6 +72,9 @@ CLS_MISPLACED = [
 ]
 
 
+ANON_PAYLOAD_OK = True
+
+
 def payload_of(node, name, payload, slot):
     """(source line, [callback names]) of the declaration in slot `slot` (payload None: plain int)"""
     in_class = node.is_class and node.idx >= 0
@@ -81,6 +84,8 @@ def payload_of(node, name, payload, slot):
     else:
         k = (payload + slot) % len(table)
     text, cbs = table[k]
+    if not ANON_PAYLOAD_OK and len(cbs) == 4:
+        text, cbs = table[0]  # C05: the anonymous-struct payload would add a start callback of its own
     return text.format(n=name), cbs
 
 
